@@ -463,13 +463,13 @@ func init() {
 			return e.st.UF(constStr(args[0], "UF name"), IntSort, e.ufArgs(fr, s, args[1], pos)...)
 		},
 		"vUFPt": func(e *Engine, fr *Frame, s *State, f *ssa.Function, args []Value, pos string) Value {
-			return e.st.UF(constStr(args[0], "UF name"), USort("Pt"), e.ufArgs(fr, s, args[1], pos)...)
+			return e.st.UF(constStr(args[0], "UF name"), BV(64), e.ufArgs(fr, s, args[1], pos)...)
 		},
 		"vUFSc": func(e *Engine, fr *Frame, s *State, f *ssa.Function, args []Value, pos string) Value {
-			return e.st.UF(constStr(args[0], "UF name"), USort("Sc"), e.ufArgs(fr, s, args[1], pos)...)
+			return e.st.UF(constStr(args[0], "UF name"), BV(64), e.ufArgs(fr, s, args[1], pos)...)
 		},
 		"vUFFe": func(e *Engine, fr *Frame, s *State, f *ssa.Function, args []Value, pos string) Value {
-			return e.st.UF(constStr(args[0], "UF name"), USort("Fe"), e.ufArgs(fr, s, args[1], pos)...)
+			return e.st.UF(constStr(args[0], "UF name"), BV(64), e.ufArgs(fr, s, args[1], pos)...)
 		},
 		// vUFBytes(name, n, args...) returns a fresh harness-owned n-byte slice holding UF(args) split into bytes (little endian)
 		"vUFBytes": func(e *Engine, fr *Frame, s *State, f *ssa.Function, args []Value, pos string) Value {
@@ -506,9 +506,9 @@ func init() {
 			return nil
 		},
 		"vGetZ":  getCell(IntSort),
-		"vGetPt": getCell(USort("Pt")),
-		"vGetSc": getCell(USort("Sc")),
-		"vGetFe": getCell(USort("Fe")),
+		"vGetPt": getCell(BV(64)),
+		"vGetSc": getCell(BV(64)),
+		"vGetFe": getCell(BV(64)),
 		"vGetZAt": func(e *Engine, fr *Frame, s *State, f *ssa.Function, args []Value, pos string) Value {
 			p := args[0].(*Iface).Val.(*Ptr)
 			k := constInt(args[1], "cell index")
@@ -629,6 +629,12 @@ func init() {
 		},
 		"vSeq.Len": func(e *Engine, fr *Frame, s *State, f *ssa.Function, args []Value, pos string) Value {
 			return e.st.SeqLen(args[0].(*Term))
+		},
+		"vLinkLen": func(e *Engine, fr *Frame, s *State, f *ssa.Function, args []Value, pos string) Value {
+			sl := args[0].(*SliceV)
+			b := sl.P.Alts[0].Obj.Blob
+			e.H.assumes = append(e.H.assumes, e.st.Eq(e.st.SeqLen(b.Seq), e.st.BV2Nat(b.Len)))
+			return nil
 		},
 		"vHash": func(e *Engine, fr *Frame, s *State, f *ssa.Function, args []Value, pos string) Value {
 			// returns the 64 digest bytes of H(seq) as a harness-owned slice
